@@ -135,6 +135,8 @@ func (t *bT) text() string {
 		return "^[ " + fieldsText(t.fields) + " ]"
 	case "dict":
 		return fmt.Sprintf("(HashmapE %d %s)", t.n, t.a.text())
+	case "hm": // the non-empty dictionary (c09_r8.go: only its Go shape is checked, it has no inline model)
+		return fmt.Sprintf("(Hashmap %d %s)", t.n, t.a.text())
 	case "named":
 		return t.name
 	}
